@@ -10,7 +10,7 @@ import (
 	"strings"
 )
 
-var loadPatterns = []string{"./internal/...", "./pkg/...", "./cmd/..."}
+var loadPatterns = []string{"./internal/...", "./pkg/...", "./cmd/...", "github.com/gin-gonic/gin"}
 
 func main() {
 	if len(os.Args) < 2 {
